@@ -161,6 +161,14 @@ package store
 //@   assert at before call index.Index.Put#0: @C09-same-location $a0 == newIndex && $a2 == rec.Block
 //@   assert at before call index.MoveFiles#0: @C09-swap-only-after-complete-iteration gdone && event("call:index.Index.Put") >= 0
 //@   assert at before call index.MoveFiles#0: @C09-swap-after-both-closed newIndex.$closed && oldIndex.$closed
+// Crash clause of C09: at every step after the old index was moved away there must still be
+// an index at indexPath, or OpenStore must be able to tell. gpresent (ghost): a complete index
+// is at indexPath. This obligation FAILS on the code as it is (finding F15, open: the two
+// MoveFiles are separate steps and nothing records that a swap is in progress); it is listed in
+// /verif/KNOWN_FINDINGS.txt and reproduced by /verif/findings/f15_test.go.
+//@   ghost var gpresent bool = true
+//@   ghost at after call index.MoveFiles#0: gpresent = false
+//@   assert at before call index.MoveFiles#1: @C09-crash-safe-swap {C09} gpresent
 //@   internal ensures @C17-old-index-closed gold == 1 ==> goldref.$closed
 //@   internal ensures @C17-new-index-closed gnew == 1 ==> gnewref.$closed
 //@   loop 0 invariant oldIndex != nil && newIndex != nil && fresh(oldIndex) && fresh(newIndex) && oldIndex != newIndex && gold == 1 && gnew == 1 && goldref == oldIndex && gnewref == newIndex && (oldIndex.gcStop == nil || fresh(oldIndex.gcStop)) && (oldIndex.gcDone == nil || fresh(oldIndex.gcDone)) && (newIndex.gcStop == nil || fresh(newIndex.gcStop)) && (newIndex.gcDone == nil || fresh(newIndex.gcDone)) && fresh(ticker.C) && iter != nil && fresh(iter) && iter.index == oldIndex && newIndex.Primary == primary && ticker != nil && (!primary.$pending || primary.$failed)
